@@ -14,6 +14,26 @@ verus! {
 
 pub assume_specification<'a, 'b, T: ?Sized>[ <std::sync::RwLockWriteGuard<'a, T> as core::ops::DerefMut>::deref_mut ](g: &'b mut std::sync::RwLockWriteGuard<'a, T>) -> (r: &'b mut T)
     ensures same_val::<T>(&*final(r), wguard_final(old(g)));
+/// token fact (C10, hangs): a read guard of the error channel's lock has been taken in this call - only `vread_held` establishes it.
+/// In try_writing_to_error_channel the guard is the temporary of the `match` scrutinee: it lives through every arm.
+pub uninterp spec fn read_held() -> bool;
+/// R44 SHIMS for the two lock operations on the error channel
+pub trait VChanLock<T> {
+    spec fn the_lock(&self) -> &std::sync::RwLock<T>;
+    fn vread_held(&self) -> (r: std::sync::LockResult<std::sync::RwLockReadGuard<'_, T>>)
+        ensures r is Ok, rguard_content(&r->Ok_0) == lock_content(self.the_lock()), read_held();
+    fn vwrite_free(&self) -> (r: std::sync::LockResult<std::sync::RwLockWriteGuard<'_, T>>)
+        requires
+            !read_held(), //@label RwLock::write.no_read_guard_held C10
+        ensures r is Ok, wguard_content(&r->Ok_0) == lock_content(self.the_lock()), lock_after(self.the_lock()) == wguard_final(&r->Ok_0);
+}
+impl<T> VChanLock<T> for std::sync::RwLock<T> {
+    open spec fn the_lock(&self) -> &std::sync::RwLock<T> { self }
+    #[verifier::external_body]
+    fn vread_held(&self) -> (r: std::sync::LockResult<std::sync::RwLockReadGuard<'_, T>>) { self.read() }
+    #[verifier::external_body]
+    fn vwrite_free(&self) -> (r: std::sync::LockResult<std::sync::RwLockWriteGuard<'_, T>>) { self.write() }
+}
 pub uninterp spec fn path_view(p: &std::path::Path) -> Seq<char>;
 pub uninterp spec fn pathbuf_view(p: &std::path::PathBuf) -> Seq<char>;
 pub assume_specification[ <std::path::PathBuf as core::ops::Deref>::deref ](p: &std::path::PathBuf) -> (r: &std::path::Path)
@@ -182,11 +202,14 @@ pub mod util {
     //@   canary
 
     //@ fn src/util.rs fn try_writing_to_error_channel
+    //@   attr #[verifier::exec_allows_no_decreases_clause]
     //@   props C19
     //@   rule R35 *
     //@   rule R3 *
     //@   req[try_writing_to_error_channel.pre.documented_panic] !panic_flag()
     //@   req[try_writing_to_error_channel.pre.frame] frame()
+    //@   rule R44 *
+    //@   onlyif ^match &*(error_channel().read().unwrap()) ## RwLock::write.no_read_guard_held set_error_channel.pre.no_read_guard_held
     //@   ens[try_writing_to_error_channel.post.served] served(s@)
     //@   closure ~handle_error_error ## sig |e: std::io::Error| -> (u: ())
     //@   closure ~handle_error_error ## req !panic_flag() && stderr_ok() && frame()
@@ -194,6 +217,7 @@ pub mod util {
     //@   canary
 
     //@ fn src/util.rs fn eprint_msg
+    //@   attr #[verifier::exec_allows_no_decreases_clause]
     //@   props C19
     //@   rule R32 *
     //@   req[eprint_msg.pre.documented_panic] !panic_flag()
@@ -202,6 +226,7 @@ pub mod util {
     //@   canary
 
     //@ fn src/util.rs fn eprint_err
+    //@   attr #[verifier::exec_allows_no_decreases_clause]
     //@   props C19
     //@   rule R32 *
     //@   rule R36 1
@@ -211,11 +236,16 @@ pub mod util {
     //@   canary
 
     //@ fn src/util.rs fn set_error_channel
+    //@   attr #[verifier::exec_allows_no_decreases_clause]
     //@   props C19
     //@   count 1 .write()
     //@   rule R37 *
     //@   req[set_error_channel.pre.documented_panic] !panic_flag()
     //@   req[set_error_channel.pre.frame] frame()
+    //@   rule R44 *
+    //@   props C10
+    //@   req[set_error_channel.pre.no_read_guard_held] !read_held()
+    //@   props C19
     //@   ens[set_error_channel.post.installed] *lock_after(the_channel_lock()) == channel
     //@   canary
 }
